@@ -17,7 +17,7 @@ use uuid::Uuid;
 pub const NS: Uuid = Uuid::from_u128(0x6ba7b810_9dad_11d1_80b4_00c04fd430c8);
 pub const TAKER: u64 = 900;
 pub const DRAIN_QTY: u64 = 1_000_000;
-pub const CALL_BUDGET: u64 = 10_000;
+pub const CALL_BUDGET: u64 = 5_000;
 
 #[derive(Clone, Copy, Debug, PartialEq, Eq, Hash, Serialize)]
 pub enum UpdKind {
